@@ -797,3 +797,54 @@ def c02_large_cases(tier, seed):
             st.append(backward(10, seed_tensor(od, k0=7)))
             cases.append(st)
     return cases
+
+
+# ---------------------------------------------------------------------------------------------
+# value-dependent corners: zeros, ones, equal elements, tiny magnitudes, repeated values
+def special_value_cases(tier, seed):
+    rnd = random.Random(seed)
+    cases = []
+    pats = {"zeros": lambda n: [0] * n, "ones": lambda n: [1] * n, "equal": lambda n: [F(3, 2)] * n,
+            "onezero": lambda n: [0 if k == n // 2 else k + 1 for k in range(n)],
+            "oneone": lambda n: [1 if k == 0 else -(k + 1) for k in range(n)],
+            "tiny": lambda n: [F((-1) ** k, 2 ** 40) for k in range(n)],
+            "minus": lambda n: [-1] * n, "mixed0": lambda n: [[0, 1, -1, 2][k % 4] for k in range(n)],
+            "rows": lambda n: [[1, 2, 1, 2, 3, 4][k % 6] for k in range(n)]}
+    for d in ([3], [2, 2], [2, 3]):
+        n = prod(d)
+        for pa, fa in pats.items():
+            for pb in ("zeros", "ones", "equal", "mixed0", "rows"):
+                fb = pats[pb]
+                for o in ("add", "mul", "sub", "axpy"):
+                    trk = rnd.choice(subsets(2))
+                    steps = [RESET, leaf(1, d, fa(n), trk=trk[0]), leaf(2, d if rnd.random() < 0.6 else d[-1:], fb(n)[:n if True else 0][: (n if rnd.random() < 2 else 0)], trk=trk[1])]
+                    db = steps[2]["d"]
+                    steps[2] = leaf(2, db, fb(prod(db)), trk=trk[1])
+                    steps.append(op(o, [1, 2], 10, **({"alpha": sc(-1)} if o == "axpy" else {})))
+                    steps.append({"op": "eq", "args": [10, 1]})
+                    steps.append(backward(10, seed_tensor(bdims(d, db))))
+                    steps += grads_of([1, 2])
+                    steps.append({"op": "into_vec", "args": [1]} if not any(trk) else {"op": "clone", "args": [10], "res": 11})
+                    cases.append(steps)
+            # unary operations on the pattern
+            for o, par in (("neg", {}), ("scale", {"c": sc(-1)}), ("scale", {"c": sc(0)}), ("scale", {"c": sc(1)}), ("relu", {}),
+                           ("powf", {"p": {"n": 1}}), ("powf", {"p": {"n": 2}}), ("powf", {"p": {"n": 0}}), ("sum", {"k": 1}),
+                           ("sum", {"k": len(d)}), ("csq", {"bw": True}), ("reshape", {"d": [n]})):
+                if o == "powf" and par["p"]["n"] == 0 and pa in ("zeros", "onezero", "mixed0"):
+                    continue        # the derivative of x^0 at 0 is not defined by the formula e * x^(e-1)
+                steps = [RESET, leaf(1, d, fa(n), trk=True), op(o, [1], 10, **par), {"op": "sum_all", "args": [10]}]
+                od = {"sum": d[:len(d) - par.get("k", 0)] + [1], "reshape": [n]}.get(o, d)
+                steps.append(backward(10, seed_tensor(od)))
+                steps += grads_of([1])
+                cases.append(steps)
+            # division by a pattern of +-powers of two, numerator from the pattern
+            steps = [RESET, leaf(1, d, fa(n), trk=True), leaf(2, d, [[1, -1, 2, F(1, 2)][k % 4] for k in range(n)], trk=True),
+                     op("div", [1, 2], 10), backward(10, seed_tensor(d))]
+            cases.append(steps)
+            # construction / indexing / equality with repeated values
+            steps = [RESET, leaf(1, d, fa(n)), leaf(2, d, fa(n)), leaf(3, d, [v + (F(1, 2 ** 20) if k == n - 1 else 0) for k, v in enumerate(fa(n))]),
+                     {"op": "eq", "args": [1, 2]}, {"op": "eq", "args": [1, 3]}, {"op": "nested", "args": [1, 2, 1], "res": 4, "mv": False},
+                     {"op": "index", "args": [4], "flat": 3 * n - 1}, {"op": "index", "args": [2], "flat": n - 1},
+                     {"op": "index", "args": [3], "flat": n - 1}, {"op": "index", "args": [1], "flat": n - 1}]
+            cases.append(steps)
+    return cases
